@@ -19,3 +19,45 @@ int q_good_find(char *dest, size_t dmax, int ch, char **resultp) {
 int q_bad_store(char *dest, size_t dmax) { if (dmax) dest[dmax - 1] = 0; return (int)strlen(dest); }
 int q_bad_clear(char *dest, size_t dmax, const char *src) { if (!src) { helper_clear(dest, dmax); return 1; } return 0; }
 int q_bad_tok(const char *dest, char *src) { return strtok_r_like(src, ',') != NULL && dest != NULL; }
+/* scan completeness: a budgeted scan may give up only after it examined all `budget` elements */
+size_t sc_good_while(const char *dest, size_t dmax, const char *src, size_t slen) {      /* strcspn-like, conforming */
+    size_t n = 0;
+    while (dmax && *dest) {
+        const char *scan2 = src;
+        size_t smax = slen;
+        while (smax && *scan2) {
+            if (*dest == *scan2) return n;
+            scan2++;
+            smax--;
+        }
+        dest++; dmax--; n++;
+    }
+    return n;
+}
+size_t sc_predecrement(const char *dest, size_t dmax, const char *src, size_t slen) {    /* the last element of the set is never tried */
+    size_t n = 0;
+    while (dmax && *dest) {
+        const char *scan2 = src;
+        size_t smax = slen;
+        while (--smax && *scan2) {
+            if (*dest == *scan2) return n;
+            scan2++;
+        }
+        dest++; dmax--; n++;
+    }
+    return n;
+}
+int sc_good_dowhile(const char *dest, size_t dmax, int ch) {                               /* dmax >= 1 checked by the caller */
+    do {
+        if (*dest == ch) return 1;
+        dest++;
+    } while (--dmax);
+    return 0;
+}
+int sc_stops_one_short(const char *dest, size_t dmax, int ch) {                            /* `> 1`: dest[dmax-1] is never compared */
+    while (dmax > 1) {
+        if (*dest == ch) return 1;
+        dest++; dmax--;
+    }
+    return 0;
+}
